@@ -25,7 +25,9 @@ ASSUME NoId \notin Ids
 Item(p, i) == [p |-> p, id |-> i]
 \* "fieldset_redefined": a field set with the same field NAMES as one of the store's but another definition
 \* "missing_required_other": the missing required value belongs to another field (of the second field set where there is one)
-RejectKinds == {"missing_required", "missing_required_other", "fieldset_mismatch", "fieldset_redefined", "id_inconsistent"}
+\* "missing_required_foreign": a trajectory of other field sets than the store's (or than the ones the session will use) that also
+\* lacks a required value - refused whatever the store holds, also as the very first addition
+RejectKinds == {"missing_required", "missing_required_other", "missing_required_foreign", "fieldset_mismatch", "fieldset_redefined", "id_inconsistent"}
 
 VARIABLES
   exists,     \* does file F exist
